@@ -41,13 +41,21 @@ UNIVERSE = [
     ('rsa1024-0', ('AnnLee (xy)',), ()),
     # a user id is UTF-8 text; line breaks in it are unusual but legal
     ('ecdsa-p384-1', ('Multi\nLine (two\nlines) <ml@example.org>',), ()),
+    # an address without a display name (an RFC 2822 name-addr, as other implementations write user ids)
+    ('ecdsa-p521-1', ('<solo@example.org>',), ()),
+    # names / comments made of the letters a-f only, with and without the blanks
+    ('ecdsa-p256-xlead0', ('Ada Fee (dead beef)',), ()),
+    ('ecdsa-p256-slead0', ('AdaFee (deadbeef)',), ()),
+    # a name that reads like the key id of ANOTHER key of the universe (filled in below: the key id of certificate 1)
+    ('ecdsa-k256-1', ('@KEYID1@',), ()),
 ]
+UNIVERSE[-1] = (UNIVERSE[-1][0], (keypool.ref_public(UNIVERSE[1][0]).keyid.hex().upper(),), ())
 FORMS = ['object', 'binary', 'armored', 'file', 'list', 'tuple', 'dup-list', 'dup-args']
 
 
 def split_uid(u):
     import re
-    m = re.match(r'^(?P<name>.+?)( \((?P<comment>.+?)\)(?=( <|\Z)))?( <(?P<email>.+)>)?\Z', u, re.S)
+    m = re.match(r'^(?P<name>.*?)( \((?P<comment>.+?)\)(?=( ?<|\Z)))?( ?<(?P<email>.+)>)?\Z', u, re.S)
     return m.group('name'), m.group('comment') or '', m.group('email') or ''
 
 
